@@ -213,7 +213,15 @@ impl Account {
 						&endpoint.name
 					);
 					self.info(&msg);
+					let contacts_changed = hash_contacts(&self.contacts) != acc_ep.contacts_hash;
+					let key_changed = hash_key(&self.current_key)? != acc_ep.key_hash;
 					register_account(endpoint, self).await?;
+					if contacts_changed && !key_changed {
+						// The key is already known to the endpoint, which therefore
+						// returns the existing account and ignores the new contacts
+						// (RFC 8555, section 7.3.1).
+						update_account_contacts(endpoint, self).await?;
+					}
 					return Ok(());
 				}
 			}
